@@ -397,7 +397,7 @@ func checkC05(c *Check) {
 					}
 				}
 			}
-			evArg := theWrite.Call.Args[1]
+			evArg := theWrite.Call.Args[len(theWrite.Call.Args)-1]
 			if fields == nil {
 				c.Unk("same-event", name, pos, "forwarded value is not a struct literal; cannot identify its fields")
 				continue
